@@ -293,7 +293,16 @@ def vmx(ctx, config='default'):
             for h, body in loops_here:
                 for b in body:
                     in_loop[b] = h
-            ai = AbsInt(F, fn, {}, stop_blocks={header}, loop_bound=2, max_paths=4000)
+            # inside its arm the dispatched value is this opcode (a later `match op` on a bound copy folds)
+            env0 = {}
+            sw_t = fn.term(swb)
+            opl = op_local_of(sw_t['op'])
+            for st_ in fn.blocks[swb]['stmts']:
+                if st_['k'] == 'assign' and st_['rv']['k'] == 'discr' and st_['place']['local'] == opl:
+                    pl_ = st_['rv']['place']
+                    if not pl_['proj']:
+                        env0['_%d' % pl_['local']] = ('enum', OPCODE, opname)
+            ai = AbsInt(F, fn, env0, stop_blocks={header}, loop_bound=2, max_paths=4000)
             paths = ai.run(entry)
             if ai.truncated:
                 raise CheckerError('VMX: too many paths in the arm of OpCode::%s' % opname)
